@@ -441,7 +441,10 @@ def check_free(case):
                 return 'locate under maxprocs({}) gives {} instead of {}'.format(case['nprocs'], got.tolist(), ref.tolist())
             return None
         prog = LS.programs('quick')[case['index']][1]
-        node = LS.build(prog)
+        try:
+            node = LS.build(prog)
+        except Exception:
+            return None   # the constructor itself rejects the program (counted as build error by the other parts): nothing to run
         env = (T.valuations(LS.arguments(prog), nsets=1, exhaustive_int=False) or [{}])[0]
         try:
             LS.ref(prog, env)
